@@ -153,5 +153,23 @@ Definition map_make : Mapper.tagmap := [].
 (* qualifiedTypeName(t, alias): the rendered name stands for the type *)
 Definition qualified_type_name (t : ty) : option ty := Some t.
 
+(* ---- go/types values in makeSubMap / makeSubListMap, on the model's palette (Model/MapVal.v [ty]):
+     assertion to types.Pointer / types.Slice   the pointer / slice type, represented by its element type
+     assertion to types.Named                   (package, name); Obj() is the same pair
+     Obj().Pkg()                            never nil on this palette (no universe-scope named types such as error)
+     Pkg().Path(), g.Pkg().PkgPath, g.destPkg.PkgPath   the model's three-way package identity PSrc / PDst / POth:
+                                            "the source package" and "the destination package" are distinct there
+     Obj().Name() stored in Field.Type      stands for the named type itself, like qualifiedTypeName *)
+Definition as_pointer (t : ty) : ty * bool := match t with TPtr x => (x, true) | _ => (t, false) end.
+Definition as_slice (t : ty) : ty * bool := match t with TSlice x => (x, true) | _ => (t, false) end.
+Definition as_named (t : ty) : (pkg * string) * bool :=
+  match t with TNamed p n => ((p, n), true) | _ => ((POth "", ""), false) end.
+Definition type_elem (t : ty) : ty := t.
+Definition named_obj (n : pkg * string) : pkg * string := n.
+Definition obj_pkg (n : pkg * string) : option pkg := Some (fst n).
+Definition obj_name (n : pkg * string) : option ty := Some (TNamed (fst n) (snd n)).
+Definition pkg_path (p : option pkg) : pkg := match p with Some x => x | None => POth "" end.
+Definition pkg_path_of (p : pkg) : pkg := p.
+
 (* logx.Warnf: nothing the model observes *)
 Definition prim_warn (w : world) : world := w.
